@@ -197,6 +197,16 @@ def directed(run, prop, tier, seed):
                 (f"*=0x008000\n.scope outer {{\nlim = {a}\n.scope mid {{\n{{\n.db lim\n}}\n}}\n}}\n", bytes([a])),
             ]
         elif prop == "C09":
+            # what a macro body does to its scope stays in the application's scope, also for a macro without parameters and
+            # without labels: a text table selected in the body is not the call site's table afterwards
+            tfiles = {"ta_zq.tbl": "41=A\n42=B\n", "tb_zq.tbl": "61=A\n62=B\n"}
+            fam += [
+                ("*=0x008000\n.macro useb_zq() {\n.table 'tb_zq.tbl'\n.text 'A'\n}\n.table 'ta_zq.tbl'\nuseb_zq()\n.text 'AB'\n", bytes([0x61, 0x41, 0x42]), tfiles),
+                ("*=0x008000\n.macro useb_zq() {\n.if 1 {\n.table 'tb_zq.tbl'\n}\n.text 'B'\n}\n.table 'ta_zq.tbl'\nuseb_zq()\n.text 'A'\nuseb_zq()\n.text 'B'\n", bytes([0x62, 0x41, 0x62, 0x42]), tfiles),
+                (f"*=0x008000\n.macro useb_zq() {{\n.table 'tb_zq.tbl'\n.text 'A'\n}}\n.table 'ta_zq.tbl'\n.for k_zq := 0, {c} {{\nuseb_zq()\n.text 'A'\n}}\n.text 'B'\n", bytes([0x61, 0x41] * c + [0x42]), tfiles),
+                ("*=0x008000\n.macro useb_zq() {\n.table 'tb_zq.tbl'\n.text 'A'\n}\n.table 'ta_zq.tbl'\n.scope s_zq {\nuseb_zq()\n.text 'B'\n}\n.text 'A'\n", bytes([0x61, 0x42, 0x41]), tfiles),
+                (f"*=0x008000\n.macro quiet_zq() {{\n.table 'tb_zq.tbl'\n}}\n.macro loud_zq() {{\nquiet_zq()\n.db {a}\n}}\n.table 'ta_zq.tbl'\nquiet_zq()\n.text 'A'\nloud_zq()\n.text 'B'\n", bytes([0x41, a, 0x42]), tfiles),
+            ]
             fam += [
                 (f"*=0x008000\n.macro m(a, b) {{\n.db a, b\n}}\na := {a}\nm(1, a)\n", bytes([1, a])),
                 # arguments that cannot be evaluated when the macro is applied (they name labels or `=` symbols) and that
@@ -277,7 +287,7 @@ def directed(run, prop, tier, seed):
                 # ... and the other branch may hold anything that parses
                 (f"*=0x008000\n.db {a}\n.if 0 {{\nno_such_macro_zq()\nzz_x := undefined_zq + 4\n}} else {{\n.db 2\n}}\n.db {c}\n", bytes([a, 2, c])),
             ]
-    progs = [raw("low_rom", src, meta=exp) for src, exp in fam]
+    progs = [raw("low_rom", t[0], meta=t[1], files=(dict(t[2]) if len(t) > 2 else {})) for t in fam]
     for pr, r, m in run.run(progs, trace=False):
         s.cases += 1
         s.nontrivial.add(pr["src"])
